@@ -203,7 +203,9 @@ func (env *Env) requireGates(e *flow.Engine, alts []*flow.Alt, part string, spec
 // near lists gates that mention the same anchor call as the expectation, to
 // make a report diagnosable.
 func near(e *flow.Engine, a *flow.Alt, sp gateSpec) string {
-	words := strings.FieldsFunc(sp.expect, func(r rune) bool { return !(r == '.' || r == '_' || r >= 'a' && r <= 'z' || r >= 'A' && r <= 'Z' || r >= '0' && r <= '9') })
+	words := strings.FieldsFunc(sp.expect, func(r rune) bool {
+		return !(r == '.' || r == '_' || r >= 'a' && r <= 'z' || r >= 'A' && r <= 'Z' || r >= '0' && r <= '9')
+	})
 	best := ""
 	for _, g := range a.Gates {
 		s := g.String()
